@@ -77,7 +77,34 @@ def gen_case(rng, simrun, backend):
                     c["kw"] = {"select": int(rng.integers(0, 2))}
             pos = int(rng.integers(len(spec["cmds"]) // 2, len(spec["cmds"]) + 1))
             spec["cmds"].insert(pos, c)
-    if rng.random() < 0.3 and (not fock or n <= 2):
+    if backend in ("fock", "bosonic") and rng.random() < 0.4:
+        # non-Gaussian preparations (number, cat, GKP states with complex amplitudes; kets and density matrices on fock) in the
+        # middle of a program, i.e. also after the register has become mixed
+        kinds = ["Catstate", "GKP"] + (["Fock", "Ket", "DensityMatrix"] if fock else [])
+        no_extension = False
+        for _ in range(int(rng.integers(1, 3))):
+            k = str(rng.choice(kinds))
+            m = int(rng.integers(n))
+            D = 10 if n <= 2 else 7
+            if k == "Catstate":
+                c = {"op": k, "p": [float(rng.uniform(0.3, 0.9)), float(rng.choice([0.0, float(rng.uniform(0, 6.28))])), float(rng.choice([0, 1, 0.5, float(rng.uniform(0, 2))]))], "m": [m], "dag": False}
+            elif k == "GKP":
+                c = {"op": k, "p": [], "kw": {"state": [float(rng.choice([np.pi / 2, np.pi, float(rng.uniform(0, np.pi))])), float(rng.choice([0.0, np.pi / 2, float(rng.uniform(0, 6.28))]))],
+                                              "epsilon": float(rng.uniform(0.5, 0.65))}, "m": [m], "dag": False}
+            elif k == "Fock":
+                c = {"op": k, "p": [int(rng.integers(0, 3))], "m": [m], "dag": False}
+            else:
+                v = rng.normal(size=4) + 1j * rng.normal(size=4)
+                ket = np.zeros(D, dtype=complex)
+                ket[:4] = v / np.linalg.norm(v)
+                no_extension = True  # (the array length fixes the cutoff, which the New / Del extension would change)
+                if k == "Ket":
+                    c = {"op": k, "p": [enc(ket)], "m": [m], "dag": False}
+                else:
+                    dm = 0.7 * np.outer(ket, ket.conj()) + 0.3 * np.diag([1.0] + [0.0] * (D - 1))
+                    c = {"op": k, "p": [enc(dm)], "m": [m], "dag": False}
+            spec["cmds"].insert(int(rng.integers(len(spec["cmds"]) // 3, len(spec["cmds"]) + 1)), c)
+    if rng.random() < 0.3 and (not fock or n <= 2) and not locals().get("no_extension"):
         # subsystems created / deleted in the middle of the program, on entangled states (New on bosonic: recorded
         # finding under C08, not exercised here)
         spec = simrun.extend_with_new_del(rng, gen, spec, allow | {"New", "Del"}, fock, 3 if fock else 6,
@@ -93,6 +120,9 @@ def run_case(case, rep, env):
     import strawberryfields as sf
 
     spec, hbar, backend = case["spec"], case["hbar"], case["backend"]
+    for c in spec["cmds"]:
+        if c["op"] in ("Catstate", "GKP", "Fock", "Ket", "DensityMatrix"):
+            rep.observe("non-gaussian-preparation:%s@%s" % (c["op"], backend))
     sf.hbar = hbar
     try:
         confs = [{"backend": backend}]
